@@ -17,7 +17,7 @@
    excluded situation (C04_rollback_exact_refuted_pending).  [guard pol p] adds a syntactic condition for the Lazy
    policy only (g1: a catch block followed by a finally block makes no un-layered call — finding F13, repaired);
    for Eager it is [true]. *)
-From NG Require Import Common.Tactics Exec.CallTree Exec.Spec Exec.CallTreeFrame Exec.CallTreeProofs Exec.CallTreeWitness Exec.BlockProofs Exec.HandlerProofs.
+From NG Require Import Common.Tactics Exec.CallTree Exec.Spec Exec.CallTreeFrame Exec.CallTreeProofs Exec.CallTreeWitness Exec.BlockProofs Exec.HandlerProofs Exec.ReadsProofs.
 Open Scope N_scope.
 
 (* tx_atomic, fault half — for ALL call trees, both policies, any base state, sender and fee: a transaction that does
@@ -185,6 +185,17 @@ Theorem C04_call_form_irrelevant_tx : forall pol base p, run_tx pol base p = run
 Proof. exact call_form_irrelevant_tx. Qed.
 Print Assumptions C04_call_form_irrelevant_tx.
 
+(* values are immutable, only writes change a layer: a call tree without Put / Delete / GAS or NEO transfer / Policy setter
+   leaves the view of storage and of both native caches exactly as it was, whatever it reads, converts, scribbles on, passes to
+   callees, and however its calls are layered, committed, dropped or faulted.  ALL such trees, no guard. *)
+Theorem C04_reads_change_nothing : forall pol p, nowrites p = true -> forall cid fl it, keeps (exec pol p cid fl it).
+Proof. exact reads_change_nothing. Qed.
+Print Assumptions C04_reads_change_nothing.
+Theorem C04_reads_change_nothing_tx : forall pol base p, nowrites p = true ->
+  forall k, lookup k (lst (after (run_tx pol base p))) = lookup k (lst base).
+Proof. exact reads_change_nothing_tx. Qed.
+Print Assumptions C04_reads_change_nothing_tx.
+
 (* non-vacuity *)
 Example C04_example_guarded_tree :
   guard Lazy ex1 = true /\ guard Eager ex1 = true /\ g2 ex1 = false /\
@@ -244,3 +255,6 @@ Example C04_example_nested_finally_call :
   halted m = true /\ clean m = true /\ events m = [EvN 0 9] /\
   lookup (0, 0) (lst (after m)) = Some 1 /\ lookup (0, 1) (lst (after m)) = Some 1 /\ lookup (1, 0) (lst (after m)) = None.
 Proof. exact nested_finally_call_runs. Qed.
+Example C04_example_reads_change_nothing :
+  nowrites (Call 0 15 (Seq (NotifyVal 0) (Try (CallV true 1 15 (Seq (NotifyVal 2) Throw)) (Some NotifyFee) (Some (Notify 1))))) = true.
+Proof. reflexivity. Qed.
